@@ -465,3 +465,40 @@ def h_non_ascii(ctx, tier, seed):
 
 
 HARNESSES.append(_h("c16_non_ascii", h_non_ascii, "0..3 printable ASCII characters followed by a 2-, 3- or 4-byte UTF-8 character x 6 target types"))
+
+
+def h_request_illformed(ctx, tier, seed):
+    """a declared parameter supplied with an ill-formed value - under args or under env - makes the
+    request fail; it is never parsed into a request that silently lacks the parameter"""
+    eng = ctx.eng; T = TIR(eng)
+    from harness.c06 import leaf, out
+    tx = mk_tx(T, fees=leaf(T, "quantity"), outputs=[out(T, datum=leaf(T, "flag_b"))])
+    models.deref_box(models.deref(tx.fields[eng.tdef("Tx", "struct")[1][2].index("outputs")]).items[0].fields[1].fields[0]).fields[1] = T.v("Type", "Bool")
+    dr = [n_ for n_ in eng.fns if n_ == "decode_root" or n_.endswith("::decode_root")][0]
+    eng.overrides[dr] = lambda e, a: ok(models.vclone(e, tx))
+    bad_key = ["quantity", "flag_b"][eng.choose(2, "which parameter is ill-formed")]
+    where = eng.choose(2, "ill-formed value under args / env")
+    bad_val = {"quantity": [jstr(eng, list(b"12x")), eng.mk_variant("Value", "Null", []), eng.mk_variant("Value", "Bool", [True])],
+               "flag_b": [jnum(eng, 2), jstr(eng, list(b"yes")), eng.mk_variant("Value", "Null", [])]}[bad_key][eng.choose(3, "ill-formed value")]
+    good = {"quantity": jnum(eng, 5), "flag_b": jstr(eng, list(b"true"))}
+    other = [k for k in good if k != bad_key][0]
+    other_in_env = eng.choose(2, "the well-formed parameter under env") == 1
+    a_entries, e_entries = [], []
+    (a_entries if where == 0 else e_entries).append([StrM(bad_key, True), True, bad_val])
+    (e_entries if other_in_env else a_entries).append([StrM(other, True), True, good[other]])
+    q, d = eng.tdef("TirEnvelope", "struct", hint="spec")
+    tvals = dict(content=StrM("00", True), encoding=eng.mk_variant("BytesEncoding", "Hex", [], "interop"), version=StrM("v1beta0", True))
+    env = Agg(q, None, 0, [tvals[f] for f in d[2]])
+    rq, rd = eng.tdef("ResolveParams", "struct")
+    req = Agg(rq, None, 0, [{"args": MapM("BTreeMap", a_entries), "tir": env, "env": some(MapM("BTreeMap", e_entries))}[f] for f in rd[2]])
+    try:
+        r = models.deref(eng.call_fn(eng.find(short="parse_resolve_request"), [req]))
+    except Panic as p:
+        eng.stats.panic_paths += 1
+        ctx.violation("parse_resolve_request panicked: %s" % p.kind, site=p.site, shape="request parsing panics")
+        return
+    ctx.require(r.variant == "Err", "an ill-formed value for declared parameter %s under %s is rejected" % (bad_key, "args" if where == 0 else "env"),
+                shape="ill-formed %s value accepted or dropped silently" % ("args" if where == 0 else "env"))
+
+
+HARNESSES.append(_h("c16_request_illformed", h_request_illformed, "2 declared parameters; one of them with 3 ill-formed values, under args or env; the other well-formed under args or env"))
